@@ -179,7 +179,7 @@ def run(chk, P):
              'R09.8, restricted to the serialnos table')
     from rules import c09
     c09.r09_8(common.Proxy(chk, 'R10.5', only=lambda fn, cons: cons.startswith('serialnos-')), P, E)
-    chk.floor('R10.5', 2)
+    chk.floor('R10.5', 1)
     from rules import pagestate
     pagestate.page_once(chk, P, E, 'R10.6')
     chk.floor('R10.6', 6)
